@@ -406,6 +406,58 @@ def rule_g(chk, prog):
         chk.violation("C07.g", STEP_FN, "harvest_dates[season] == step_end_time", "the summary is no longer triggered by the step that ends on the harvest date", loc=step.loc())
 
 
+def _int_ub(e):
+    """constant upper bound of an integer expression of the forms the repo uses (min with a constant arm), else None"""
+    if isinstance(e, ast.Constant) and isinstance(e.value, int) and not isinstance(e.value, bool):
+        return e.value
+    if isinstance(e, ast.Call) and norm(e.func) in ("min", "np.minimum", "np.min") and e.args:
+        args = e.args[0].elts if len(e.args) == 1 and isinstance(e.args[0], (ast.List, ast.Tuple)) else e.args
+        ubs = [u for u in (_int_ub(a) for a in args) if u is not None]
+        return min(ubs) if ubs else None
+    if isinstance(e, ast.Call) and norm(e.func) in ("int", "round") and len(e.args) == 1:
+        return _int_ub(e.args[0])
+    return None
+
+
+def rule_h(chk, prog):
+    """C07.h (a derived latest harvest date does not end the season before maturity by wrapping round the year): when no harvest date is given it is
+    derived as planting date + N days and kept as month/day; seasons recur yearly, so N >= 365 wraps to a date N-365 days after planting and every
+    season is cut there. The day offset added to the planting date must have a constant upper bound <= 364 on every reaching definition."""
+    f = prog.find_func("read_model_parameters")
+    flow = flow_of(f)
+    cfg = flow.cfg
+    where = f"{f.module}:{f.qualname}"
+    n = 0
+    for node in walk_no_nested(f.node):
+        if not (isinstance(node, ast.Call) and norm(node.func) in ("np.timedelta64", "pd.Timedelta", "timedelta", "datetime.timedelta", "pd.to_timedelta", "pd.DateOffset")):
+            continue
+        arg = node.args[0] if node.args else next((k.value for k in node.keywords if k.arg in ("days", "value")), None)
+        if arg is None:
+            continue
+        nid = flow.node_of(node)
+        st = cfg.nodes[nid].ast if nid is not None else None
+        # only offsets that end up in the crop's harvest date (month/day string): the statement's target flows to crop.harvest_date
+        n += 1
+        construct = norm(node)
+        chk.fn(f.key)
+        if isinstance(arg, ast.Name):
+            ds = flow.defs_reaching(arg.id, nid) if nid is not None else []
+            ubs = []
+            for d in ds:
+                a = cfg.nodes[d].ast if d != ENTRY else None
+                ubs.append(_int_ub(a.value) if isinstance(a, ast.Assign) else None)
+            ub = None if (not ubs or any(u is None for u in ubs)) else max(ubs)
+        else:
+            ub = _int_ub(arg)
+        if ub is not None and ub <= 364:
+            chk.ok("C07.h", where, construct, f"day offset of the derived harvest date bounded by {ub} <= 364")
+        else:
+            chk.violation("C07.h", where, construct, "the day offset added to the planting date to derive the month/day harvest date has no constant bound <= 364: "
+                          "for a crop that needs 335 days or more to mature the date wraps round the year and every season is cut "
+                          f"(offset - 365) days after planting (bound found: {ub})", loc=f.loc(node))
+    chk.floor("C07.h", n, 1, "day offsets added to the planting date in read_model_parameters")
+
+
 def run(chk, prog, tier):
     rule_a(chk, prog)
     rule_b(chk, prog)
@@ -414,4 +466,5 @@ def run(chk, prog, tier):
     rule_e(chk, prog)
     rule_f(chk, prog)
     rule_g(chk, prog)
+    rule_h(chk, prog)
     chk.exhaustive = True
